@@ -859,6 +859,141 @@ def schedule_D(case, res):
         res.violation(case, "; ".join(dict.fromkeys(bad))[:2500])
 
 
+def schedule_D2(case, res):
+    """The owner nests `with tree:`; the inner block is left through an exception that the owner catches *inside the outer
+    block* and carries on.  It is still inside its critical section: it still holds the lock (event log) and a reader
+    started now waits until the outer block is left."""
+    log = Log()
+    t = build_tree(0)
+    attach_log(t, log)
+    tmpdir = tempfile.mkdtemp(prefix="vmon-c18-")
+    bad, out, depth_seen = [], {}, []
+    excs = {"user": _Boom, "base": _BaseBoom, "kbd": KeyboardInterrupt, "genexit": GeneratorExit, "sysexit": SystemExit}
+    E = excs[case["exc"]]
+    reader_started = threading.Event()
+
+    def reader():
+        me = threading.get_ident()
+        log.add("call", me, "copy")
+        try:
+            out["r"] = run_op("copy", t, tmpdir)
+        except Exception:
+            out["err"] = short_tb(4)
+        log.add("ret", me, "copy")
+
+    def owner():
+        me = threading.get_ident()
+        try:
+            with t:
+                steps = writer_steps(t, "rebuild", 0)
+                for fn in steps[:2]:
+                    fn()
+                for _ in range(case["nest"]):
+                    try:
+                        with t:
+                            with t:
+                                raise E("raised inside a nested block, caught by the owner inside the outer one")
+                    except BaseException:  # noqa: BLE001
+                        pass
+                acq = sum(1 for e in log.events if e[1] == "acquired" and e[2] == me)
+                rel = sum(1 for e in log.events if e[1] == "released" and e[2] == me)
+                depth_seen.append(acq - rel)
+                rt = threading.Thread(target=reader, daemon=True)
+                rt.start()
+                out["rt"] = rt
+                rid = rt.ident
+                log.wait_for(lambda evs: any(e[2] == rid and e[1] in ("blocked", "ret") for e in evs), timeout=WATCHDOG)
+                out["reader_state_inside"] = next((e[1] for e in reversed(log.events) if e[2] == rid and e[1] in ("blocked", "ret")), None)
+                for fn in steps[2:]:
+                    fn()
+        except BaseException as e:  # noqa: BLE001
+            out["owner_exc"] = f"{type(e).__name__}: {e}"
+
+    th = threading.Thread(target=owner, daemon=True)
+    th.start()
+    th.join(WATCHDOG * 3)
+    if th.is_alive():
+        res.inconc("schedule D2: owner thread did not end")
+        shutil.rmtree(tmpdir, ignore_errors=True)
+        return
+    if out.get("rt") is not None:
+        out["rt"].join(WATCHDOG)
+    res.count("cell:D2")
+    if out.get("owner_exc"):
+        bad.append(f"the owner's critical section raised {out['owner_exc']} after it had caught the inner exception")
+    if depth_seen and depth_seen[0] < 1:
+        bad.append(f"after catching {case['exc']} from a nested `with tree:` the owner is still inside its outer block but holds the lock "
+                   f"{depth_seen[0]} times (event log: acquired minus released)")
+    if out.get("reader_state_inside") == "ret":
+        bad.append("a reader's copy() returned while the owner was still inside its outer `with tree:` block")
+    elif out.get("reader_state_inside") is None and not bad:
+        res.inconc("schedule D2: the reader neither blocked nor returned")
+    if "r" in out:
+        msg = check_snapshot(labels_of("copy", out["r"]), {1})
+        res.count("snapshots_checked")
+        if msg:
+            bad.append(f"copy() started inside the owner's critical section: {msg}")
+    shutil.rmtree(tmpdir, ignore_errors=True)
+    if bad:
+        res.violation(case, "; ".join(dict.fromkeys(bad))[:2500])
+
+
+def schedule_E(case, res):
+    """The process has a single thread when it enters `with tree:`; the readers are started from inside the block.  Decided on
+    the readers' results alone (no instrumentation needed): every snapshot is the state before or after the block."""
+    t = build_tree(0)
+    tmpdir = tempfile.mkdtemp(prefix="vmon-c18-")
+    bad, results, threads = [], {}, []
+    if threading.active_count() != 1:
+        res.count("schedule_E_not_single_threaded")
+    ops = ["copy", "to_dict_list", "save_stream", "with", "copy_to", "to_dotfile"]
+    steps = writer_steps(t, case["style"], 0)
+    try:
+        with t:
+            for fn in steps[: len(steps) // 2]:
+                fn()
+
+            def reader(op):
+                try:
+                    results[op] = run_op(op, t, tmpdir)
+                except Exception:
+                    results[op] = ("EXC", short_tb(3))
+
+            for op in ops:
+                th = threading.Thread(target=reader, args=(op,), daemon=True)
+                th.start()
+                threads.append(th)
+            # give the readers every chance to run (they must be waiting for the lock): join with a short real-time bound -
+            # a reader that is (rightly) blocked simply does not finish here; nothing is concluded from the timing
+            for th in threads:
+                th.join(0.05)
+            early = [op for op, th in zip(ops, threads) if not th.is_alive()]
+            for fn in steps[len(steps) // 2:]:
+                fn()
+        for th in threads:
+            th.join(WATCHDOG)
+        if any(th.is_alive() for th in threads):
+            res.inconc("schedule E: a reader did not end")
+            return
+        res.count("cell:E")
+        for op in ops:
+            r = results.get(op)
+            if isinstance(r, tuple) and r and r[0] == "EXC":
+                bad.append(f"{op} raised: {r[1]}")
+                continue
+            msg = check_snapshot(labels_of(op, r), {0, 1})
+            res.count("snapshots_checked")
+            if msg:
+                bad.append(f"{op}, started from inside a `with tree:` block that was entered while the process had one thread"
+                           f"{' (finished before the block was left)' if op in early else ''}: {msg}")
+    except Exception:
+        bad.append("schedule E raised: " + short_tb(5))
+    finally:
+        shutil.rmtree(tmpdir, ignore_errors=True)
+    if bad:
+        res.violation(case, "; ".join(dict.fromkeys(bad))[:2500])
+
+
 class _SlowStream(io.StringIO):
     """A text target whose first write pauses (a slow disk, a socket): the pause is in the *output* phase of save()."""
 
@@ -1337,6 +1472,12 @@ def _run_case(case, res):
     if k == "D":
         res.case(case, nontrivial=True)
         return schedule_D(case, res)
+    if k == "D2":
+        res.case(case, nontrivial=True)
+        return schedule_D2(case, res)
+    if k == "E":
+        res.case(case, nontrivial=True)
+        return schedule_E(case, res)
     if k == "F":
         res.case(case, nontrivial=True)
         return schedule_F(case, res)
@@ -1406,6 +1547,11 @@ def all_points(tier):
             for style in STYLES:
                 for phase in ((0, 2) if tier == "quick" else (0, 1, 2, 3)):
                     pts.append({"kind": "D", "nest": nest, "exc": exc, "style": style, "phase": phase})
+    for exc in ("user", "base", "kbd", "genexit", "sysexit"):
+        for nest in (1, 2):
+            pts.append({"kind": "D2", "exc": exc, "nest": nest})
+    for style in STYLES:
+        pts.append({"kind": "E", "style": style})
     fs_pts = []
     for op in ("save_stream", "save_path", "save_zip", "copy", "copy_to", "to_dict_list", "to_dotfile_path", "with"):
         for style in (("rebuild",) if tier == "quick" else STYLES):
@@ -1418,7 +1564,7 @@ def all_points(tier):
             continue
         if pt["kind"] == "G":
             continue  # TypedTree.save() writes its output while it still holds the lock: there is no unlocked output phase
-        if pt["kind"] in ("C", "D", "F", "R") or (pt.get("style") in ("rebuild", "mixed") and (tier != "quick" or pt.get("phase", 1) in (1, 2) or pt["kind"] == "B")):
+        if pt["kind"] in ("C", "D", "D2", "E", "F", "R") or (pt.get("style") in ("rebuild", "mixed") and (tier != "quick" or pt.get("phase", 1) in (1, 2) or pt["kind"] == "B")):
             typed_pts.append({**pt, "typed": True})
     return pts + typed_pts + fs_pts
 
